@@ -596,6 +596,11 @@ def _arraybuild_programs(run, descs, name):
         ps.add(body, exp, rec)
     for body, exp, rec in ga.stateful_closure_cases():
         ps.add(body, exp, rec)
+    for body, exp, rec, may_reject in ga.param_pattern_cases():
+        if may_reject:
+            ps.add(body, exp, rec, accept=lambda g, exp=exp: g in (exp, "COMPILE-ERROR"))
+        else:
+            ps.add(body, exp, rec)
     return ps
 
 
